@@ -94,6 +94,7 @@ type State struct {
 	Events   []Event
 	Flags    map[string]int
 	Cont     []contFn
+	Defers   []*ssa.Defer
 }
 
 func NewState() *State {
@@ -122,6 +123,7 @@ func (s *State) Clone() *State {
 		c.Flags[k] = v
 	}
 	c.Cont = append([]contFn{}, s.Cont...)
+	c.Defers = append([]*ssa.Defer(nil), s.Defers...)
 	c.Trail = append([]string(nil), s.Trail...)
 	c.Events = append([]Event(nil), s.Events...)
 	return c
@@ -185,6 +187,9 @@ type Hooks struct {
 	Return func(st *State, ret *ssa.Return, results []Val)
 	// Panic is invoked at explicit panics.
 	Panic func(st *State, p *ssa.Panic)
+	// Deferred is invoked at RunDefers for every defer statement executed on the path (in
+	// reverse order), so that rules see deferred calls where they take effect.
+	Deferred func(st *State, d *ssa.Defer)
 	// Stop cuts a path short (checked at every block entry).
 	Stop      func(st *State) bool
 	MaxVisits int
@@ -501,6 +506,19 @@ func Explore(fn *ssa.Function, b *ssa.BasicBlock, idx int, pred *ssa.BasicBlock,
 		case *ssa.Alloc:
 			st.Fresh[x] = true
 			delete(st.Volatile, x)
+		case *ssa.Defer:
+			if len(st.Cont) == 0 {
+				st.Defers = append(st.Defers, x)
+			}
+			if h.Instr != nil {
+				h.Instr(st, x)
+			}
+		case *ssa.RunDefers:
+			if len(st.Cont) == 0 && h.Deferred != nil {
+				for k := len(st.Defers) - 1; k >= 0; k-- {
+					h.Deferred(st, st.Defers[k])
+				}
+			}
 		case *ssa.Call:
 			if h.Fork != nil {
 				if outs := h.Fork(st, x); outs != nil {
